@@ -794,7 +794,18 @@ def run_suite(ctx, binp, cases, name, prop):
     rc, out, err = vlib.run_bin(binp, input=inp, timeout=2400)
     results, hooks, nblocks = parse_output(out, [cases[ci] for (ci, _) in flat])
     if rc != 0 or nblocks != len(flat):
-        ctx.oblige("harness:run:" + name, False, "rc=%d blocks=%d/%d %s" % (rc, nblocks, len(flat), (out[-500:] + err[-1500:])))
+        # the runner died (abort / signal): the case after the last complete block is the failing input
+        detail = "rc=%d blocks=%d/%d %s" % (rc, nblocks, len(flat), (out[-500:] + err[-1500:]))
+        if nblocks < len(flat):
+            ci, si = flat[nblocks]
+            line = case_line(cases[ci], cases[ci]["scheds"][si])
+            rc1, out1, err1 = vlib.run_bin(binp, input=line + "\n", timeout=600)
+            if rc1 != 0 and len(ctx.violations) < 3:
+                ctx.violation("%s: the runner crashed (exit status %d: memory corruption / abort inside the implementation) on this case" % (prop, rc1),
+                              {"case": {k: cases[ci][k] for k in ("backend", "suite", "cap", "nreaders", "prefix", "wprog", "rprogs", "suffix", "kind")},
+                               "schedule": cases[ci]["scheds"][si], "impl_output": out1.splitlines()[-20:], "stderr": err1[-1500:],
+                               "replay_cmd": "echo '%s' | build/target/debug/%s" % (line, prop.lower())})
+        ctx.oblige("harness:run:" + name, False, detail)
         return None
     t_impl = time.time() - t0
     needs_hooks = any(c["wprog"] or any(c["rprogs"]) for c in cases)
